@@ -134,6 +134,10 @@ def mutations(y):
             d = m(); d["host_configurations"][s_]["value"] = d["sensitive_hosts"][s_] + 7
             d["host_configurations"][s_]["firewall"] = {h0: [sv]}
             yield "host-value-contradicts-sensitive-with-host-firewall", d
+            d = m(); d["host_configurations"][s_]["value"] = 0; yield "host-value-zero-contradicts-sensitive", d
+            d = m(); d["host_configurations"][s_]["value"] = 0.0; yield "host-value-zero-float-contradicts-sensitive", d
+            d = m(); d["host_configurations"][s_]["value"] = -d["sensitive_hosts"][s_]; yield "host-value-negated-contradicts-sensitive", d
+            d = m(); d["host_configurations"][s_]["value"] = d["sensitive_hosts"][s_] * 1.01; yield "host-value-one-percent-off-sensitive", d
             break
     d = m(); d["host_configurations"][h0] = [1, 2, 3]; yield "host-configuration-not-a-dict", d
     fw = list(y["firewall"])
